@@ -11,21 +11,21 @@ import (
 // TrustedExternals documents, for the evidence file, the library functions whose
 // behaviour the engine models directly (every one is an assumption, not a proof).
 var TrustedExternals = map[string]string{
-	"fmt.Sprintf":                         "returns some string; no effect on the heap",
-	"fmt.Sprint":                          "returns some string; no effect on the heap",
-	"fmt.Errorf":                          "returns a non-nil error; no effect on the heap",
-	"errors.New":                          "returns a non-nil error; no effect on the heap",
-	"math.Float64bits":                    "IEEE-754 bits of the argument (NaN payload unconstrained)",
-	"math.Float32bits":                    "IEEE-754 bits of the argument (NaN payload unconstrained)",
-	"math.Float64frombits":                "IEEE-754 value of the bits",
-	"math.Float32frombits":                "IEEE-754 value of the bits",
-	"math.IsNaN":                          "fp.isNaN",
-	"math.IsInf":                          "fp.isInfinite with sign",
-	"math.Signbit":                        "sign bit (of NaN: unconstrained)",
-	"unicode/utf8.Valid":                  "uninterpreted predicate of the byte sequence",
-	"unicode/utf8.ValidString":            "uninterpreted predicate of the byte sequence",
-	"(encoding/binary.bigEndian).Uint32":  "big-endian fold of 4 bytes; panics if shorter",
-	"(encoding/binary.bigEndian).Uint64":  "big-endian fold of 8 bytes; panics if shorter",
+	"fmt.Sprintf":                           "returns some string; no effect on the heap",
+	"fmt.Sprint":                            "returns some string; no effect on the heap",
+	"fmt.Errorf":                            "returns a non-nil error; no effect on the heap",
+	"errors.New":                            "returns a non-nil error; no effect on the heap",
+	"math.Float64bits":                      "IEEE-754 bits of the argument (NaN payload unconstrained)",
+	"math.Float32bits":                      "IEEE-754 bits of the argument (NaN payload unconstrained)",
+	"math.Float64frombits":                  "IEEE-754 value of the bits",
+	"math.Float32frombits":                  "IEEE-754 value of the bits",
+	"math.IsNaN":                            "fp.isNaN",
+	"math.IsInf":                            "fp.isInfinite with sign",
+	"math.Signbit":                          "sign bit (of NaN: unconstrained)",
+	"unicode/utf8.Valid":                    "uninterpreted predicate of the byte sequence",
+	"unicode/utf8.ValidString":              "uninterpreted predicate of the byte sequence",
+	"(encoding/binary.bigEndian).Uint32":    "big-endian fold of 4 bytes; panics if shorter",
+	"(encoding/binary.bigEndian).Uint64":    "big-endian fold of 8 bytes; panics if shorter",
 	"(encoding/binary.bigEndian).PutUint32": "big-endian store of 4 bytes; panics if shorter",
 	"(encoding/binary.bigEndian).PutUint64": "big-endian store of 8 bytes; panics if shorter",
 }
